@@ -306,6 +306,60 @@ func genC17(tier, out string, sum *Summary) {
 			}
 		}
 	}
+	// right-hand sides that do not map null to null (built-in calls): the projection applies them to every element,
+	// null elements included, and only then drops null results; decided against the reference semantics.
+	// And a position applied to a finished projection: (p)[i] and p | [i] take the i-th of the kept results.
+	{
+		sdocs := make([]any, len(ssDocs))
+		for i, d := range ssDocs {
+			sdocs[i] = jsonDoc(d)
+		}
+		calls := []*R{sub(cur(), call("type", av(cur()))), sub(cur(), call("to_array", av(cur()))), sub(cur(), call("not_null", av(cur()), av(raw("none")))), sub(cur(), call("to_string", av(cur()))),
+			sub(cur(), call("length", av(cur()))), sub(cur(), mlist(cur())), sub(cur(), call("type", av(sub(cur(), fld("a")))))}
+		sels := []*R{cur(), sub(cur(), fld("a")), sub(cur(), fld("b")), idx(cur(), 0), sub(sub(cur(), fld("a")), fld("b"))}
+		conds := []*R{cur(), fld("a"), not(fld("b")), cmp("==", call("type", av(cur())), raw("object"))}
+		k := 0
+		for _, x := range []*R{cur(), fld("a"), fld("b"), sub(fld("a"), fld("a")), litJ("[1, null, [2], null]")} {
+			for _, r := range calls {
+				for _, pk := range []PKind{PList, PFlatten, PValues} {
+					for q := 0; q < 3; q++ {
+						k++
+						doc := sdocs[(k*7+q*5)%len(sdocs)]
+						e := proj(pk, x, r)
+						c.emit(e, doc, search(unparse(e), doc), hasEnum(e))
+					}
+				}
+				for _, cd := range conds[:2] {
+					k++
+					doc := sdocs[(k*7)%len(sdocs)]
+					e := filt(x, cd, r)
+					c.emit(e, doc, search(unparse(e), doc), false)
+				}
+			}
+			for _, r := range sels {
+				var ps []*R
+				for _, pk := range []PKind{PList, PFlatten} {
+					ps = append(ps, proj(pk, x, r))
+				}
+				for _, cd := range conds {
+					ps = append(ps, filt(x, cd, r))
+				}
+				ps = append(ps, slc(x, ip(0), nil, nil, r), slc(x, nil, nil, ip(-1), r))
+				for _, p := range ps {
+					for _, i := range []int64{0, 1, -1} {
+						for q := 0; q < 2; q++ {
+							k++
+							doc := sdocs[(k*3+q*11)%len(sdocs)]
+							if p.PK == PSlice && typeOf(x, doc) == "string" {
+								continue
+							}
+							c.same("position-after-projection", idx(p, i), pipe(p, idx(cur(), i)), doc)
+						}
+					}
+				}
+			}
+		}
+	}
 	// ".[*]" (a one-element multi-select of "*") directly after a projection: the same as piping into a new projection
 	for _, pr := range [][2]string{{"x[*].[*]", "x[*] | [*].[*]"}, {"x[].[*]", "x[] | [*].[*]"}, {"x[0:3].[*]", "x[0:3] | [*].[*]"}, {"x[?@ || !@].[*]", "x[?@ || !@] | [*].[*]"}, {"o.*.[*]", "o.* | [*].[*]"}, {"x[*].[*]", "x[*].[@.*]"},
 		{"x[*].[ *]", "x[*].[*]"}, {"x[*].[*][0]", "x[*] | [*].[*][0]"}, {"[*].[*]", "@[*] | [*].[*]"}, {"x[*].[*].[*]", "x[*] | [*].[*] | [*].[*]"}} {
